@@ -138,7 +138,11 @@ def convert_asynq_to_async(fn):
 
         async def wrapped(*_args, **_kwargs):
             with AsyncioMode():
-                return fn(*_args, **_kwargs)
+                try:
+                    return fn(*_args, **_kwargs)
+                except async_task.AsyncTaskResult as exc:
+                    # the function finished with asynq.result(value)
+                    return exc.result
 
         return wrapped
 
